@@ -13,7 +13,9 @@ RULE = ('explicit-state BFS per past-time formula: one transition = one real upd
         'replayed from the event history; events = all sample vectors over the value alphabet; states merged on '
         '(generic object-graph dump of the monitor, reference summary of the history) with merges validated one step deep; '
         'invariant on every transition: update() value == reference rho at the last sample == rtamt offline evaluate(); '
-        'non-trivial transition: the top operator mattered (reference output differs from every operand and is not +-inf)')
+        'non-trivial transition: the top operator mattered (reference output differs from every operand and is not +-inf); '
+        'co-resident layer: two live monitors (same text, or one containing the other) stepped in every interleaving, with reset() of the second as an event - '
+        'each update() must still equal the reference on that monitor\'s own samples')
 ASSUMPTIONS = ['value alphabet V3 for the first variable, V3 or {-1,2} for the second; formulas with <= 2 operators, duplicates, 3-chains',
                'a search that closes (fixpoint) covers traces of every length over the alphabet; otherwise only up to the reported depth',
                'state key: generic walk of all objects reachable from the specification object, minus update_counter/previous_time']
@@ -177,6 +179,98 @@ def deep_params(tier):
     return dict(values=(F.V2, F.V2), maxdepth=24, max_transitions=40000, validate='first')
 
 
+class CoResidentModel(object):
+    """two live online monitors A and B in one process, stepped in every interleaving; B holds the same formula text as A or a formula
+    that contains it (so every node name of A also names a node of B).  Events: ('A', sample) | ('B', sample) | ('Br',) = reset of B.
+    The value of every update() must be the reference robustness of that monitor's own formula on that monitor's own samples."""
+
+    def __init__(self, f, g, values):
+        self.a = DtOnlineModel(f, values, offline=False)
+        self.b = DtOnlineModel(g, values, variables=self.a.vs, offline=False)
+        self.f, self.g = f, g
+        self.text = self.a.text + '  ||  ' + self.b.text
+        self.events = [(w, e) for e in self.a.events for w in 'AB'] + [('Br',)]
+        self.nontrivial = 0
+
+    def fresh(self):
+        return [self.a.fresh(), self.b.fresh()]
+
+    def own(self, hist, who):
+        """the samples monitor `who` has received since its construction / last reset"""
+        out = []
+        for e in hist:
+            if e[0] == who:
+                out.append(e[1])
+            elif e == ('Br',) and who == 'B':
+                out = []
+        return tuple(out)
+
+    def apply(self, obj, hist, e):
+        if e == ('Br',):
+            return impl.outcome(obj[1].reset)
+        m, o = (self.a, obj[0]) if e[0] == 'A' else (self.b, obj[1])
+        return m.apply(o, self.own(hist, e[0]), e[1])
+
+    def implkey(self, obj):
+        return (self.a.implkey(obj[0]), self.b.implkey(obj[1]))
+
+    def refkey(self, hist):
+        return (self.a.refkey(self.own(hist, 'A')), self.b.refkey(self.own(hist, 'B')))
+
+    def check(self, hist, out, obj):
+        e = hist[-1]
+        if e == ('Br',):
+            return None if out[0] == 'ok' else 'reset() of the second monitor raised %s' % (out[1],)
+        m = self.a if e[0] == 'A' else self.b
+        msg = m.check(self.own(hist, e[0]), out, None)
+        if msg and msg is not explore.PRUNE:
+            return 'monitor %s (%s), with another live monitor %s in the process: %s' % (e[0], m.text, (self.b if e[0] == 'A' else self.a).text, msg)
+        if msg is None and self.own(hist, 'A') and self.own(hist, 'B'):
+            self.nontrivial += 1
+        return msg
+
+
+def coresident_set(tier):
+    """(f, g): stateful past formulas f with g = f (same text) and g = a formula containing f"""
+    px, py, X = F.PX, F.PY, F.X
+    base = [('prev', X), ('once', (0, 1), X), ('historically', (1, 2), px), ('rise', px), ('once', None, X), ('historically', None, px),
+            ('since', (1, 2), px, py), ('since', None, px, py), ('once', (1, 1), ('prev', X)), ('and', ('once', (0, 2), px), ('prev', px)),
+            ('fall', X), ('s_prev', px), ('once', (0, 8), X), ('historically', (2, 5), px)]
+    if tier == 'quick':
+        base = base[::2] + [('since', (1, 2), px, py)]
+    out = []
+    for f in base:
+        out.append((f, f))
+        out.append((f, ('prev', f)))
+    return out
+
+
+def run_coresident(res, mod, f, g, tier):
+    m = CoResidentModel(f, g, (F.V3, F.V2))
+    fj, gj = F.to_json(f), F.to_json(g)
+
+    def on_violation(hist, msg):
+        res.violation(mod, {'coresident': True, 'formula': fj, 'formula_b': gj, 'spec': m.a.text, 'spec_b': m.b.text, 'vars': m.a.vs,
+                            'history': [[e[0]] + ([list(e[1])] if len(e) > 1 else []) for e in hist]}, msg)
+        res.outcomes['co-resident monitor mismatch'] += 1
+
+    quick = tier == 'quick'
+    st = explore.bfs(m, 5 if quick else 7, 700 if quick else 20000, 'first', on_violation)
+    res.formulas += 1
+    res.states += st.states
+    res.transitions += st.transitions
+    res.traces += st.executions
+    res.evaluations += st.transitions
+    res.nontrivial += m.nontrivial
+    res.flags['coresident_pairs'] += 1
+    res.flags['coresident_transitions'] += st.transitions
+    if st.canon_divergence:
+        res.flags['canon_divergence'] += st.canon_divergence
+    res.outcomes['co-resident pair explored'] += 1
+    res.digest(m.text, st.states, st.transitions)
+    return st, m
+
+
 def shards(tier):
     fs = formula_set(tier)
     per = 6 if tier == 'quick' else 2
@@ -191,6 +285,8 @@ def shards(tier):
     out += [{'formulas': [F.to_json(f) for f in ln[i:i + 4]], 'longnames': True} for i in range(0, len(ln), 4)]
     its = int_set()
     out += [{'formulas': [F.to_json(f) for f in its[i:i + 6]], 'ints': True} for i in range(0, len(its), 6)]
+    cs = coresident_set(tier)
+    out += [{'coresident': [(F.to_json(f), F.to_json(g)) for f, g in cs[i:i + 2]]} for i in range(0, len(cs), 2)]
     return out
 
 
@@ -319,7 +415,11 @@ def explore_formula(res, mod, f, p, model=None, extra=None):
 def run_shard(shard, tier, res):
     p = deep_params(tier) if shard.get('deep') else params(tier)
     mod = sys.modules[__name__]
-    for fj in shard['formulas']:
+    for fj, gj in shard.get('coresident', ()):
+        st, m = run_coresident(res, mod, F.from_json(fj), F.from_json(gj), tier)
+        res.sample({'monitor_a': m.a.text, 'monitor_b': m.b.text, 'events': len(m.events), 'states': st.states, 'transitions': st.transitions,
+                    'max_depth': st.maxdepth}, 1)
+    for fj in shard.get('formulas', ()):
         f = F.from_json(fj)
         if shard.get('long'):
             run_long(res, mod, f, tier)
@@ -338,7 +438,24 @@ def run_shard(shard, tier, res):
                     'transitions': st.transitions, 'fixpoint': st.fixpoint, 'max_depth': st.maxdepth}, 1)
 
 
+def check_coresident(case):
+    m = CoResidentModel(F.from_json(case['formula']), F.from_json(case['formula_b']), (F.V3, F.V2))
+    hist = tuple((e[0], tuple(e[1])) if len(e) > 1 else (e[0],) for e in case['history'])
+    obj = m.fresh()
+    msgs = []
+    for i in range(len(hist)):
+        out = m.apply(obj, hist[:i], hist[i])
+        msg = m.check(hist[:i + 1], out, obj)
+        if msg is explore.PRUNE:
+            break
+        if msg:
+            msgs.append(msg)
+    return msgs
+
+
 def check_case(case):
+    if case.get('coresident'):
+        return check_coresident(case)
     f = F.from_json(case['formula'])
     m = DtOnlineModel(f, (F.V3,), text=case['spec'], variables=case['vars'], pastify=case.get('pastify', False),
                       delay=case.get('delay', 0), subspecs=case.get('subspecs', ()), consts=[tuple(c) for c in case.get('consts', ())])
